@@ -719,3 +719,181 @@ Example ex_between_files :
   | None => False
   end.
 Proof. exact ex_bridge_between. Qed.
+
+(* ------------------------------------------------------------------------------------------ *)
+(* C08 x ImgReader: the REAL fragment table loader, as an object with state                      *)
+(* ------------------------------------------------------------------------------------------ *)
+(* image_real_reader_agrees takes the data reader's fragment table as GIVEN (d_tbl dr = frag_table_of st; the reader
+   object "is assumed to hold the entries read_frags returns").  coq/C08/FragTableModel.v models lib/sqfs/src/frag_table.c
+   as an object: [ftobj] = Util's array_t model over 16-byte elements; [ft_read] = sqfs_frag_table_read statement by
+   statement (array_cleanup + size first, the three "return 0" exits, the window tests, SZ_MUL_OV, sqfs_read_table =
+   C05.Super.read_table, the model coq/ImgReader proves correct on what sqfs_write_table wrote), [ft_lookup],
+   [ft_get_size], [ft_append], [ft_set], [ft_write] (over C03's write_table).
+
+   (2) state hygiene - what seed C10-9 broke: after ANY call, on an object with ANY previous content, the object holds
+       exactly what THIS call loaded: nothing after the early exits and after every error exit, the loaded table
+       otherwise; the result does not depend on the previous content at all.
+   (1) on the image [pack] + [write_image] produce the call succeeds and leaves exactly the table pack built (lookups
+       return its entries, pad0 = 0; everything from get_size on is out of bounds), so the read-back theorem holds for
+       every reader whose table is WHAT THE LOADER LEFT - no assumption about the object left.
+   New hypotheses: the metadata decompressor as the meta reader calls it meets the specification's (uc_meets; any
+   option-valued decompressor has one: Closed.uc_of_meets), the table is at most 2 GiB (the allocation model of C05:
+   2^27 entries, not the 2^32 of the format), the loop bound covers its metadata blocks. *)
+From SqfsV Require C05.RBase C05.Super ImgE2E.Hyps.
+From SqfsV Require Import ImgReader.Embed ImgReader.ReadImage.
+From SqfsV Require Import C08.FragTableModel C08.FragTableProofs.
+From SqfsV Require Import ImgData.FragLoader ImgData.FragReadback.
+From SqfsV Require ImgData.ExampleFragLoader.
+
+Theorem frag_table_read_replaces_state :
+  forall (uc : list N -> N -> RBase.res (list N)) (img : list N) (fuel : nat) (s : Super.sup) (t : ftobj),
+  ft_read uc img fuel s t = ft_read uc img fuel s ft_create /\
+  (ft_early s = true -> ft_read uc img fuel s t = (ft_empty, RBase.Ok tt)) /\
+  (is_ok (snd (ft_read uc img fuel s t)) = false -> fst (ft_read uc img fuel s t) = ft_empty) /\
+  (ft_early s = false -> is_ok (snd (ft_read uc img fuel s t)) = true ->
+   exists raw, Super.frag_table_read uc img fuel s = RBase.Ok raw /\ fst (ft_read uc img fuel s t) = ft_loaded s raw).
+Proof. exact ft_read_replaces_state_l. Qed.
+Print Assumptions frag_table_read_replaces_state.
+
+(* what a client sees: no entry of an earlier table survives an early exit or a failed call *)
+Theorem frag_table_no_stale_entries :
+  forall uc img fuel s t idx,
+  ft_early s = true \/ is_ok (snd (ft_read uc img fuel s t)) = false ->
+  ft_lookup (fst (ft_read uc img fuel s t)) idx = RBase.Err RBase.E_OOB /\
+  ft_get_size (fst (ft_read uc img fuel s t)) = 0%N.
+Proof. exact ft_no_stale_entries. Qed.
+Print Assumptions frag_table_no_stale_entries.
+
+(* lookups in a loaded table: bound = fragment_entry_count, element idx of what sqfs_read_table returned *)
+Theorem frag_table_lookup_loaded :
+  forall s raw idx,
+  ft_lookup (ft_loaded s raw) idx =
+  if (Super.s_frag_count s <=? idx)%N then RBase.Err RBase.E_OOB
+  else let e := firstn 16 (skipn (N.to_nat idx * 16) raw) in
+       RBase.Ok (RBase.fld 8 0 e, RBase.fld 4 8 e, RBase.fld 4 12 e).
+Proof. exact ft_loaded_lookup. Qed.
+Print Assumptions frag_table_lookup_loaded.
+
+(* (1) frag_table_read (image containing what frag_table_write wrote) = the table, for every previous object content *)
+Theorem frag_table_read_of_written :
+  forall (compress : list N -> cres) (uncompress : list N -> option (list N)),
+  (forall b c, compress b = CData c -> (lenN c <= lenN b)%N /\ uncompress c = Some b) ->
+  forall limit, (limit <= 65535)%N ->
+  forall cfg inp w,
+  write_image compress limit cfg inp = Res.Ok w -> image_domain cfg inp = true -> image_fits w = true ->
+  (lenN (image_bytes w) < RBase.two63)%N ->
+  forall uc, uc_meets uncompress uc ->
+  forall fuel t,
+  (16 * Res.nlen (in_frags inp) <= RBase.alloc_limit)%N -> Hyps.frag_fuel (Res.nlen (in_frags inp)) <= fuel ->
+  let t' := fst (ft_read uc (image_bytes w) fuel (sup_of (w_super w)) t) in
+  snd (ft_read uc (image_bytes w) fuel (sup_of (w_super w)) t) = RBase.Ok tt /\
+  ft_get_size t' = Res.nlen (in_frags inp) /\
+  ft_pairs t' = in_frags inp /\
+  (forall i f, nth_error (in_frags inp) i = Some f -> ft_lookup t' (N.of_nat i) = RBase.Ok (fst f, snd f, 0%N)) /\
+  (forall idx, (Res.nlen (in_frags inp) <= idx)%N -> ft_lookup t' idx = RBase.Err RBase.E_OOB).
+Proof. exact ft_read_written_view. Qed.
+Print Assumptions frag_table_read_of_written.
+
+(* image_real_reader_agrees with the loader composed *)
+Theorem imgdata_readback_with_real_frag_loader :
+  forall (hashf : list N -> N)
+         (dcompress : list N -> option (list N)) (duncompress : list N -> nat -> option (list N))
+         (bs half : nat),
+  (forall b c, dcompress b = Some c ->
+     length c < length b /\ forall n, length b <= n -> duncompress c n = Some b) ->
+  0 < bs -> (N.of_nat bs <= c_SQFS_MAX_BLOCK_SIZE)%N -> 0 < half ->
+  forall (mcompress : list N -> cres) (muncompress : list N -> option (list N)),
+  (forall b c, mcompress b = CData c -> (lenN c <= lenN b)%N /\ muncompress c = Some b) ->
+  forall limit, (limit <= 65535)%N ->
+  forall cfg inp w file0 files sched st,
+  length file0 = 96 + length (in_opts inp) ->
+  c_block_size cfg = N.of_nat bs ->
+  pack hashf dcompress duncompress bs false true half file0 files sched = DedupModel.Ok st ->
+  in_data inp = data_of (length file0) st ->
+  in_frags inp = frag_table_of st ->
+  write_image mcompress limit cfg inp = Res.Ok w -> image_domain cfg inp = true -> image_fits w = true ->
+  (N.of_nat (length (image_bytes w)) < MetaModel.off_t_limit)%N ->
+  forall uc, uc_meets muncompress uc ->
+  forall fuel,
+  (16 * Res.nlen (frag_table_of st) <= RBase.alloc_limit)%N -> Hyps.frag_fuel (Res.nlen (frag_table_of st)) <= fuel ->
+  forall t0 : ftobj,                       (* whatever the table object held before *)
+  let U := U_of duncompress in
+  let file := MetaModel.read_at (image_bytes w) in
+  let r := ft_read uc (image_bytes w) fuel (sup_of (w_super w)) t0 in
+  snd r = RBase.Ok tt /\
+  ft_get_size (fst r) = Res.nlen (frag_table_of st) /\
+  ft_pairs (fst r) = frag_table_of st /\
+  forall fid fl d sp f,
+    nth_error files fid = Some (fl, d) ->
+    (N.of_nat (length d) < 2147483647)%N ->
+    finode_of_lkind (file_lkind bs st fid (length d) sp) = Some f ->
+    forall dr, DataProofs.dcoherent U file (N.of_nat bs) dr -> DataModel.d_tbl dr = ft_pairs (fst r) ->
+      fst (DataModel.api_read U file (N.of_nat bs) true dr f 0 (DataModel.f_size f)) = MetaModel.Ok d /\
+      (forall n, (DataModel.f_size f <= n)%N ->
+         fst (fst (DataModel.stream_read U file (N.of_nat bs) dr (DataModel.stream_create f) n)) = MetaModel.Ok d) /\
+      exists tail, fst (DataModel.api_get_fragment U file (N.of_nat bs) dr f) = MetaModel.Ok tail.
+Proof. exact readback_with_real_frag_loader_l. Qed.
+Print Assumptions imgdata_readback_with_real_frag_loader.
+
+(* non-vacuity, on the image of ex_image_contents_hyps (2 fragment blocks... whatever pack left): the remaining
+   hypotheses compute; the loader run on an object holding two STALE entries returns pack's table; a second call with
+   the NO_FRAGMENTS flag set, and one with bytes_used in front of the table, leave the empty object; a good call
+   after the failed one loads the table again *)
+Example ex_frag_loader_on_image :
+  match Example.ex_image with
+  | Some (st, w) =>
+    let img := image_bytes w in
+    let s := sup_of (w_super w) in
+    frag_table_of st <> [] /\
+    (16 * Res.nlen (frag_table_of st) <=? RBase.alloc_limit)%N = true /\
+    Nat.leb (Hyps.frag_fuel (Res.nlen (frag_table_of st))) 64 = true /\
+    (lenN img <? RBase.two63)%N = true /\
+    let r1 := ft_read ExampleFragLoader.ex_uc img 64 s ExampleFragLoader.ex_stale in
+    r1 = (ft_holding (frag_table_of st), RBase.Ok tt) /\
+    ft_lookup (fst r1) 0 = RBase.Ok (fst (nth 0 (frag_table_of st) (0, 0)), snd (nth 0 (frag_table_of st) (0, 0)), 0)%N /\
+    let r2 := ft_read ExampleFragLoader.ex_uc img 64
+                (ExampleFragLoader.with_flags s (N.lor (Super.s_flags s) c_SQFS_FLAG_NO_FRAGMENTS)) (fst r1) in
+    r2 = (ft_empty, RBase.Ok tt) /\ ft_lookup (fst r2) 0 = RBase.Err RBase.E_OOB /\
+    let r3 := ft_read ExampleFragLoader.ex_uc img 64 (ExampleFragLoader.with_used s 96) (fst r1) in
+    r3 = (ft_empty, RBase.Err RBase.E_OOB) /\ ft_get_size (fst r3) = 0%N /\
+    ft_read ExampleFragLoader.ex_uc img 64 s (fst r3) = r1
+  | None => False
+  end.
+Proof. exact ExampleFragLoader.ex_frag_loader. Qed.
+
+(* the statement is not a tautology of the modelling style: the code as seed C10-9 left it (the old table dropped only
+   once the new one is in memory; FragTableProofs.ft_read_late) violates it on the same image - after the flagged call
+   get_size still reports the previous table, after the failing call lookup(0) still answers from it *)
+Example frag_table_read_late_refuted :
+  match Example.ex_image with
+  | Some (st, w) =>
+    let img := image_bytes w in
+    let s := sup_of (w_super w) in
+    let t1 := fst (ft_read_late ExampleFragLoader.ex_uc img 64 s ExampleFragLoader.ex_stale) in
+    let r2 := ft_read_late ExampleFragLoader.ex_uc img 64
+                (ExampleFragLoader.with_flags s (N.lor (Super.s_flags s) c_SQFS_FLAG_NO_FRAGMENTS)) t1 in
+    let r3 := ft_read_late ExampleFragLoader.ex_uc img 64 (ExampleFragLoader.with_used s 96) t1 in
+    snd r2 = RBase.Ok tt /\ ft_get_size (fst r2) = Res.nlen (frag_table_of st) /\ ft_get_size (fst r2) <> 0%N /\
+    snd r3 = RBase.Err RBase.E_OOB /\ ft_lookup (fst r3) 0 = ft_lookup t1 0 /\
+    ft_lookup (fst r3) 0 <> RBase.Err RBase.E_OOB
+  | None => False
+  end.
+Proof. exact ExampleFragLoader.ex_frag_loader_late_refuted. Qed.
+
+(* the writer side of the object: sqfs_frag_table_write on an object holding the entries appended for [l] is the
+   frag_write step of write_image (the bytes, table start, entry count and flag word the theorems above are about) *)
+From SqfsV Require ImgData.FragWrite.
+Theorem frag_table_write_is_image_step :
+  forall (compress : list N -> cres) (size0 : N) (l : list (N * N)) (count0 flags cap : N),
+  forallb frag_okb l = true ->
+  TreeModel.lift (ft_write compress size0 (mk_ft FSZ cap (Res.nlen l) (map frag_entry l)) count0 flags)
+  = frag_write compress size0 l count0 flags.
+Proof. exact FragWrite.ft_write_is_frag_write. Qed.
+Print Assumptions frag_table_write_is_image_step.
+
+(* non-vacuity: two entries, the second one an uncompressed block (bit 24) *)
+Example ex_frag_table_write :
+  forallb frag_okb [(96, 300); (4096, 16777516)]%N = true /\
+  exists b s, ft_write (fun _ => CStore) 500 (mk_ft FSZ 128 2 (map frag_entry [(96, 300); (4096, 16777516)]%N)) 0 0
+              = Common.Ok (b, s, 2, c_SQFS_FLAG_ALWAYS_FRAGMENTS)%N /\ length b = 42.
+Proof. exact FragWrite.ex_ft_write. Qed.
